@@ -1,7 +1,7 @@
 (* Non-vacuity for C01: a concrete composed model meeting the theorems' hypotheses. *)
 From Coq Require Import List String Permutation ZArith.
 From Coq Require Import Floats.PrimFloat Lia.
-From PAFC01 Require Import ModelTree Sorting Proofs Proofs2 Proofs3 Proofs4 Model Proofs5 Proofs6 Proofs7.
+From PAFC01 Require Import ModelTree Sorting Proofs Proofs2 Proofs3 Proofs4 Model Proofs5 Proofs6 Proofs7 Proofs8.
 Import ListNotations.
 Local Open Scope string_scope.
 Local Open Scope list_scope.
@@ -236,3 +236,57 @@ Example exmod_instance :
                                             ("b", NBin OFloorDiv "other" "self" (NConst 7%Z) (NPrior 1))])]) [(-30)%Z; (-2)%Z]
   = IColl [("g", IObj "G2" [("a", IV 330%Z); ("b", IV (-4)%Z)])].
 Proof. vm_compute. reflexivity. Qed.
+(* ---- items addressed by name, not by position (C01_item_by_name / C01_item_order_irrelevant) ----
+   c = Collection(main = Model(G2, a = p0, b = p1)); c.append(Model(G2, a = p2, b = p3)):
+   the item named "0" is the SECOND item *)
+Definition exnum_items : list (string * node Z) :=
+  [("main", NModel "G2" ["a"; "b"] [("a", NPrior 0); ("b", NPrior 1)]);
+   ("0", NModel "G2" ["a"; "b"] [("a", NPrior 2); ("b", NPrior 3)])].
+Definition exnum : node Z := NColl exnum_items.
+
+Example exnum_hyp : NoDup (map fst exnum_items) /\
+                    In ("0", NModel "G2" ["a"; "b"] [("a", NPrior 2); ("b", NPrior 3)]) exnum_items /\ wf2 Z exnum.
+Proof.
+  split; [|split].
+  - repeat constructor; simpl; intuition discriminate.
+  - right. left. reflexivity.
+  - simpl. repeat split; repeat constructor; simpl; intuition discriminate.
+Qed.
+
+Example exnum_paths : unique_prior_paths Z exnum = [["main"; "a"]; ["main"; "b"]; ["0"; "a"]; ["0"; "b"]].
+Proof. vm_compute. reflexivity. Qed.
+
+Example exnum_by_name :
+  prior_at Z ["0"; "a"] exnum = Some 2 /\
+  lookup Z ["0"; "a"] (inst_from_vector Z zbin zun exnum [10; 20; 30; 40]%Z) = Some (IV 30%Z).
+Proof. vm_compute. split; reflexivity. Qed.
+
+Example exnum_order_hyp : Permutation exnum_items (rev exnum_items).
+Proof. apply Permutation_rev. Qed.
+
+(* the positional reading of a numeric path component (the item at position k instead of the item named k) is a
+   different function: it sends the value supplied at the advertised path ("0", "a") to the first item's parameter *)
+Definition digit_pos (k : string) : option nat :=
+  if String.eqb k "0" then Some 0 else if String.eqb k "1" then Some 1 else if String.eqb k "2" then Some 2 else None.
+
+Fixpoint prior_at_positional (p : path) (n : node Z) : option nat :=
+  match p with
+  | [] => match n with NPrior q => Some q | _ => None end
+  | k :: p' =>
+      match n with
+      | NModel _ _ attrs | NColl attrs =>
+          match (match digit_pos k with Some i => nth_error (map snd attrs) i | None => assoc k attrs end) with
+          | Some c => prior_at_positional p' c
+          | None => None
+          end
+      | _ => None
+      end
+  end.
+
+Example positional_reading_refuted :
+  exists n p q, wf2 Z n /\ In (p, q) (walk Z n) /\ prior_at_positional p n <> Some q.
+Proof.
+  exists exnum, ["0"; "a"], 2. split; [exact (proj2 (proj2 exnum_hyp))|]. split.
+  - vm_compute. right. right. left. reflexivity.
+  - vm_compute. discriminate.
+Qed.
